@@ -521,6 +521,21 @@ func (c *gxCmp) compare(e *Entry, x *gxNode, parent *Entry) {
 			c.failf("%s: units %q, expected %q", p, e.Units, x.units)
 		}
 	}
+	// read-only exactly when the nearest explicit config statement on the way up
+	// says false, or the node lies in the output of an rpc or action (C12)
+	wantRO, decided := false, false
+	for y := x; y != nil; y = y.parent {
+		if y.kind == "output" {
+			wantRO = true
+			break
+		}
+		if !decided && y.config != "" {
+			wantRO, decided = y.config == "false", true
+		}
+	}
+	if got := e.ReadOnly(); got != wantRO {
+		c.failf("%s: ReadOnly() = %v, expected %v", p, got, wantRO)
+	}
 	wantCfg := TSUnset
 	switch x.config {
 	case "true":
@@ -758,7 +773,11 @@ func (g *gxGen) dataNodes(m *gsMod, tag string, depth int) []*gsStmt {
 			out = append(out, ll)
 		case 3:
 			if depth < 2 {
-				out = append(out, gs("container", g.fresh(tag+"c"), g.dataNodes(m, tag, depth+1)...))
+				c := gs("container", g.fresh(tag+"c"), g.dataNodes(m, tag, depth+1)...)
+				if g.rng.Intn(4) == 0 {
+					c.add(gs("config", g.pick([]string{"true", "false"})))
+				}
+				out = append(out, c)
 			}
 		case 4:
 			if depth < 2 {
@@ -780,7 +799,7 @@ func (g *gxGen) dataNodes(m *gsMod, tag string, depth int) []*gsStmt {
 			if depth < 2 && depth > 0 {
 				out = append(out, gs("action", g.fresh(tag+"act"),
 					gs("input", "", gs("leaf", g.fresh(tag+"in"), gs("type", g.typeRef(m)))),
-					gs("output", "", gs("leaf", g.fresh(tag+"out"), gs("type", "string")))))
+					gs("output", "", gs("leaf", g.fresh(tag+"out"), gs("type", "string"), gs("config", g.pick([]string{"true", "false"})))))) // (a config statement has no effect inside an output)
 			}
 		}
 	}
